@@ -5,6 +5,7 @@ import (
 	"go/constant"
 	"go/token"
 	"go/types"
+	"os"
 	"regexp"
 	"strings"
 	"time"
@@ -198,10 +199,20 @@ func (a *Analyzer) objOfPtr(st *State, p Term, instr ssa.Instruction, fr *frame)
 	case *Ptr:
 		return v, true
 	case NilT:
-		a.obl("E1.nil", fr.fn, instr, "", false, func() string { return "dereference of a value that is nil on this path\n" + st.Describe() })
+		a.obl("E1.nil", fr.fn, instr, "", false, func() string {
+			return "dereference of a value that is nil on this path\n" + st.Describe() + a.debugHeap(st)
+		})
 		return nil, false
 	case *Unknown:
-		if v.Nilness == nilMaybe {
+		knownNonNil := false
+		if bid, ok := a.nilCmp[v.ID]; ok {
+			if isNil, decided := st.BoolFacts[bid]; decided && !isNil {
+				knownNonNil = true // this path passed a `!= nil` test of the same value
+			}
+		}
+		if v.Nilness == nilMaybe && knownNonNil {
+			a.obl("E1.nil", fr.fn, instr, "", true, nil)
+		} else if v.Nilness == nilMaybe {
 			a.obl("E1.nil", fr.fn, instr, "", false, func() string {
 				return fmt.Sprintf("dereference of %s which may be nil (%s)\n%s", v.Desc, v.Why, st.Describe())
 			})
@@ -273,6 +284,9 @@ func (a *Analyzer) load(st *State, p *Ptr, t types.Type) Term {
 			a.taintTerm(v, src)
 		}
 	}
+	if m, ok := v.(*MapT); ok {
+		a.mapOrigin[m.Obj.ID] = loc
+	}
 	st.Heap[loc] = v
 	return v
 }
@@ -323,6 +337,9 @@ func (a *Analyzer) store(st *State, p *Ptr, v Term, t types.Type) {
 	if v == nil {
 		delete(st.Heap, loc)
 		return
+	}
+	if m, ok := v.(*MapT); ok {
+		a.mapOrigin[m.Obj.ID] = loc
 	}
 	st.Heap[loc] = v
 }
@@ -546,7 +563,20 @@ func (a *Analyzer) contentCongruence(st *State, l Lin) {
 	}
 }
 
+var traceFn = os.Getenv("JTVERIF_TRACEFN")
+
 func (a *Analyzer) step(fr *frame, ins ssa.Instruction, st *State) []*State {
+	if traceFn != "" && strings.Contains(fr.fn.Name(), traceFn) {
+		defer func() {
+			if v, ok := ins.(ssa.Value); ok {
+				if t, ok := st.Env[v]; ok {
+					fmt.Printf("TRACE %s: %s = %s   [%s]\n", traceFn, v.Name(), ins.String(), t.TKey())
+					return
+				}
+			}
+			fmt.Printf("TRACE %s: %s\n", traceFn, ins.String())
+		}()
+	}
 	one := []*State{st}
 	switch x := ins.(type) {
 	case *ssa.DebugRef:
@@ -867,6 +897,8 @@ func (a *Analyzer) stepUnOp(fr *frame, x *ssa.UnOp, st *State) []*State {
 		if g, ok := x.X.(*ssa.Global); ok {
 			if u, ok := v.(*Unknown); ok && a.sentinelErr(g) {
 				u.Nilness = nilNon
+				u.Errs = []string{g.String()}
+				u.ErrsExact = true
 			}
 		}
 		st.Env[x] = v
@@ -1102,7 +1134,17 @@ func (a *Analyzer) stepLookup(fr *frame, x *ssa.Lookup, st *State) []*State {
 			okB = False
 		} else {
 			val = a.unknownOf(mt.Elem(), fmt.Sprintf("%s[%s]", mv.Obj.Desc, termDesc(k)), st)
-			if isPointerLike(mt.Elem()) {
+			if isPointerLike(mt.Elem()) && a.pairedPresent(st, mv, k) {
+				// paired-map lemma: the partner map holds a non-empty entry under the same key,
+				// and both maps always have the same key set, so the key is present here
+				if p, ok := val.(*Ptr); ok {
+					p.NilUnk = false
+				}
+				if u, ok := val.(*Unknown); ok {
+					u.Nilness = nilNon
+				}
+				a.PairedUsed++
+			} else if isPointerLike(mt.Elem()) {
 				switch u := val.(type) {
 				case *Unknown:
 					if !x.CommaOk {
@@ -1208,4 +1250,52 @@ func ssautilAll(a *Analyzer) map[*ssa.Function]bool {
 		}
 	}
 	return a.allFuncs
+}
+
+func (a *Analyzer) debugHeap(st *State) string {
+	pat := os.Getenv("JTVERIF_DUMPHEAP")
+	if pat == "" {
+		return ""
+	}
+	var b strings.Builder
+	b.WriteString("\nheap:")
+	for _, k := range st.heapKeys() {
+		for _, p := range strings.Split(pat, ",") {
+			if strings.Contains(k.Path, p) {
+				fmt.Fprintf(&b, "\n  o%d%s = %s", k.Obj, k.Path, a.Render(st.Heap[k]))
+			}
+		}
+	}
+	b.WriteString("\ncons: " + st.Cons.String())
+	return b.String()
+}
+
+
+// pairedPresent: is key k known to be present in the map paired with m (same owner object)?
+func (a *Analyzer) pairedPresent(st *State, m *MapT, k Term) bool {
+	if len(a.PairedMaps) == 0 {
+		return false
+	}
+	org, ok := a.mapOrigin[m.Obj.ID]
+	if !ok {
+		return false
+	}
+	le := lastElem(org.Path)
+	partner, ok := a.PairedMaps[le]
+	if !ok {
+		return false
+	}
+	ploc := Loc{org.Obj, strings.TrimSuffix(org.Path, le) + partner}
+	pm, ok := st.Heap[ploc].(*MapT)
+	if !ok {
+		return false
+	}
+	pv, ok := st.Heap[Loc{pm.Obj.ID, "[" + k.TKey() + "]"}]
+	if !ok {
+		return false
+	}
+	if s, ok := pv.(*Slice); ok {
+		return st.Cons.EntailsGE(s.Len.AddC(-1))
+	}
+	return false
 }
